@@ -156,6 +156,30 @@ func properties() []Property {
 			Assumptions: []string{"errorSort replaced by a pass-through stub (engine side)"},
 		},
 		{
+			ID: "C04",
+			Harnesses: []Harness{
+				{Name: "H04comp", Pkg: "yang", Fn: "H12", Quick: map[string]int{"n": 2}, Thorough: map[string]int{"n": 3}, Redirects: errSortStub,
+					Reach: []string{"processed"}, MaxSteps: 200000000, TimeoutMs: 30000,
+					Bound: compBound + ": the tree walker hWF (tb.go) on every cleanly processed schema", Outside: "deeper chains"},
+				{Name: "H04late", Pkg: "yang", Fn: "H07err", Redirects: errSortStub, Reach: []string{"accepted", "rejected"}, MaxSteps: 50000000, TimeoutMs: 30000,
+					Bound: "problems that arise only during augment merging: two augmenting modules adding leaves with symbolic names to symbolic targets (collisions, leaf targets, missing targets); a clean result must carry no recorded error anywhere", Outside: "larger collision patterns"},
+				{Name: "H04grp", Pkg: "yang", Fn: "H06", Redirects: errSortStub, Reach: []string{"processed", "aimed"}, MaxSteps: 400000000, TimeoutMs: 30000,
+					Bound: "the grouping universe of C06 (uses in containers, list, other module; deviations and augment aimed at one instance): the walker on every clean result", Outside: "-"},
+				{Name: "H04composite", Pkg: "yang", Fn: "H17comp", Redirects: errSortStub, Reach: []string{"processed"}, MaxSteps: 200000000, TimeoutMs: 30000,
+					Bound: "the composite schema (65 nodes, 4 modules + submodule)", Outside: "-"},
+			},
+			Assumptions: []string{"errorSort replaced by a pass-through stub (engine side)", "the walker also runs inside every other pipeline harness (C06, C07, C08, C11, C12, C17) on every path on which processing reported no error"},
+		},
+		{
+			ID: "C08",
+			Harnesses: []Harness{
+				{Name: "H08", Pkg: "yang", Fn: "H08", Quick: map[string]int{"d": 1}, Thorough: map[string]int{"d": 2}, Redirects: errSortStub,
+					Reach: []string{"applied", "rejected"}, MaxSteps: 400000000, TimeoutMs: 30000,
+					Bound: "base module with a leaf (default present/absent), a leaf-list (bounds present/absent), a list, a container, an untargeted leaf and a grouping used twice; one deviation whose target ranges over {leaf, leaf-list, list, container, missing node, leaf of one grouping instance} with 1 (thorough 1..2) deviate statements, each of kind {not-supported, add, replace, delete, unknown word} naming one property of {default (symbolic value), config, mandatory, min-elements, max-elements, units, type, unresolvable type}; with and without the ignore-not-supported option; compared with the run without the deviating module", Outside: "must/unique deviations (as quantified); deleting min-elements 0 / max-elements unbounded from a node without the statement (absence is indistinguishable from the default in the library: known limitation, not exercised); more than two deviate statements; several deviating modules"},
+			},
+			Assumptions: []string{"errorSort replaced by a pass-through stub (engine side)", "deleting the default of a leaf-list is documented by the library as unsupported and reported as an error: accepted as 'reported'"},
+		},
+		{
 			ID: "C10",
 			Harnesses: []Harness{
 				{Name: "H10a-int", Pkg: "yang", Fn: "H10a", Quick: map[string]int{"k": 2, "p": 2, "mm": 1, "fdlo": 0, "fdhi": 0},
